@@ -98,6 +98,23 @@ theorem differs_argument_repainted :
   exact ⟨h.1, h.2.1, h.2.2, not_tame_of_not_agree defs toks
     (fun m hm => wfMacro_of_wfB m (by revert m; decide)) h.2.2⟩
 
+/-- **argument-list-ends-behind-replacement-list.** `#define F(X) X +`, `#define G F(1`; `G) 2`.  rssl rescans the
+replacement list of `G` on its own, finds `F (` and no end of the argument list: `MacroArgumentsNeverEnd`; C rescans the
+replacement list together with the rest of the source, reads `F(1)` across its end and gives `1 + 2`.  (`Tame` has no
+derivation: `readArgs` fails inside the replacement list, and `F` cannot be kept in front of `(`.) -/
+theorem differs_argument_list_ends_behind_replacement_list :
+    let defs : List Macro := [⟨"F", true, 1, loc [.arg 0, .ws, .punct "+"]⟩,
+      ⟨"G", false, 0, loc [.id "F", .lparen, .int "1"]⟩]
+    let toks := loc [.id "G", .rparen, .ws, .int "2"]
+    applyMacros defs toks = .error .macroArgumentsNeverEnd ∧
+      refToks defs 10 toks = .ok [.int "1", .punct "+", .int "2"] ∧ ¬ Agree defs toks ∧
+      ¬ ∃ out, Tame (allEnabled defs) toks out := by
+  intro defs toks
+  have h := differs_of_eval defs toks 10 10 (.error .macroArgumentsNeverEnd) [.int "1", .punct "+", .int "2"] (by decide)
+    (by decide +kernel) (by intro out ho; cases ho)
+  exact ⟨h.1, h.2.1, h.2.2, not_tame_of_not_agree defs toks
+    (fun m hm => wfMacro_of_wfB m (by revert m; decide)) h.2.2⟩
+
 /-- **painted-function-name-reinvoked.** `#define A B(A)`, `#define B(X) X B`; `A(1)`.  rssl: `A 1 B` (the `B` at the
 end of `A`'s expansion came out of `B` itself, but only the macro applied last is remembered); C: `A B ( 1 )`. -/
 theorem differs_painted_function_name_reinvoked :
